@@ -232,7 +232,11 @@ def r5(ctx):
             found = f"alloc {alloc}; {name}[{s.idx[0]}] = {s.value} for {i} in {rng}"
         elif len(defs) == 1 and not stores:
             t = b.term(defs[0].ast.value, defs[0])
-            ok = (isinstance(t, App) and t.fn == "builtins.list" and isinstance(t.args[0], Attr) and t.args[0].name == "point_labels") or \
+            src = t.args[0] if isinstance(t, App) and t.fn == "builtins.list" and t.args else None
+            if isinstance(src, Idx) and len(src.idx) == 1 and isinstance(src.idx[0], Slc) and src.idx[0].lo in (None, tm.ZERO) \
+                    and src.idx[0].step is None and src.idx[0].hi in (rows, tm.length(src.base)):
+                src = src.base        # labels[:T'] of a list that has T' entries
+            ok = (src is not None and isinstance(src, Attr) and src.name == "point_labels") or \
                 (isinstance(t, Comp) and not t.conds and isinstance(t.elt, Idx) and isinstance(t.elt.base, Attr) and t.elt.base.name == "point_labels"
                  and t.elt.idx == (t.var,) and t.iter in (Range(0, rows), Range(0, tm.length(t.elt.base))))
             found = str(t)
